@@ -161,7 +161,21 @@ def run_world(S, cfgk, seed, ids):
                     tr.events.append(("QUERY", {"cal": Environment.get_instance().calendar_dt, "phase": phase, "query": "feedback_order", "id": oid, "result": "raised:" + type(ex).__name__}))
 
         def init(context):
+            import rqalpha.api as api
+            from rqalpha.core.events import EVENT
             init0(context)
+            # a function scheduled for the before-trading slot sees what before_trading sees
+            api.scheduler.run_daily(lambda c, b: queries(c, "scheduled_before_trading"), time_rule="before_trading")
+
+            # a subscribed handler of an event published before the open (it runs outside the strategy callbacks' phases)
+            def pre_bt(c, e):
+                for oid in ids:
+                    if Environment.get_instance().data_proxy.instrument(oid) is None:
+                        continue
+                    held = any(p.order_book_id == oid and p.quantity for p in api.get_positions())
+                    q("handler_pre_before_trading", "position_last_price" + ("" if held else "_unheld"), oid, lambda: api.get_position(oid).last_price)
+                    q("handler_pre_before_trading", "history_1d", oid, lambda: api.history_bars(oid, 2, "1d", "close"))
+            api.subscribe_event(EVENT.PRE_BEFORE_TRADING, pre_bt)
 
         def before_trading(context):
             queries(context, "before_trading")
@@ -260,7 +274,7 @@ def run(ctx):
         r2 = random.Random(seed)
         first_day = (k == n - 1)           # directed: the run starts on the first day of the trading calendar and the cut is its opening auction
         S = B.gen_market(r2, ndays=r2.randrange(7, 15), opts={"p_div": 0.6, "p_split": 0.4, "p_sus": 0.1, "p_delist": 0.1}, **({"warm": 0} if first_day else {}))
-        cfgk = trading.gen_config(r2, S, {"no_signal": True})
+        cfgk = trading.gen_config(r2, S, {"no_signal": True, "p_reinvest": 0.5})
         if not cfgk["accounts"] or not S["stocks"]:
             continue
         ids = [s["id"] for s in S["stocks"]] + [f["id"] for f in S["futures"]]
@@ -269,9 +283,18 @@ def run(ctx):
         ctx.stats["runs"] += 1
         truncation_corr(ctx, corr, S, A, ids)
         cuts = []
+        # days on which something happens before the open (ex-dates, payable dates, splits): half of the cuts are their opening auctions
+        event_days = sorted({B.d8(d) for d in days} & ({r[2] for rows in S["div"].values() for r in rows} | {r[3] for rows in S["div"].values() for r in rows} |
+                                                        {ex // 1000000 for rows in S["split"].values() for ex, _ in rows}))
         for _ in range(2 if ctx.tier == "quick" else 3):
             di = r2.randrange(1, len(days) - 1)
-            cuts.append((di, r2.random() < 0.5))
+            before = r2.random() < 0.5
+            if event_days and r2.random() < 0.5:
+                d8_ = r2.choice(event_days)
+                di_ = next(i for i, d in enumerate(days) if B.d8(d) == d8_)
+                if 1 <= di_ < len(days) - 1:
+                    di, before = di_, True
+            cuts.append((di, before))
         if first_day:
             cuts = [(0, True)]
         for di, before_open in cuts:
